@@ -19,8 +19,8 @@ def tdtOf (w : Bytes) : SrcWords.Tdt := (SrcWords.Tdt.from_buf w).unwrapD
 
 /-- the messages one `report_error` call stands for -/
 def reportMsgs (r : Rs.Report) : List Msg :=
-  if r.each then r.msg.codes.map (fun k => Msg.error { offset := r.pos, code := codeStr k, word := some r.word })
-  else [Msg.error { offset := r.pos, code := codeStr (r.msg.codes.headD 0), word := some r.word }]
+  if r.each then r.msg.codes.map (fun k => Msg.error { offset := r.pos, code := codeStr k, word := if r.quoted then some r.word else none })
+  else [Msg.error { offset := r.pos, code := codeStr (r.msg.codes.headD 0), word := if r.quoted then some r.word else none }]
 
 def outMsgs (out : List Rs.Report) : List Msg := out.flatMap reportMsgs
 
@@ -31,6 +31,8 @@ theorem outMsgs_append (a b : List Rs.Report) : outMsgs (a ++ b) = outMsgs a ++ 
     under configuration `cfg`, `c` being the source's copy of the current header -/
 structure Abs (cfg : CheckCfg) (v : CdpRunningValidator) (s : CdpSt) (c : SrcRdh.RdhCru) : Prop where
   running : v.f_running_checks_enabled = cfg.running
+  period : v.f_trigger_period = cfg.triggerPeriod
+  sod : v.f_tracker.f_is_start_of_data = s.startOfData
   pos : v.f_tracker.current_word_mem_pos = s.wordPos
   rdhv : v.f_rdh_validator = ItsRdhValidator.new c
   rdh : toModel c = s.rdh
@@ -52,28 +54,28 @@ theorem preprocess_ihw_eq (cfg : CheckCfg) (v : CdpRunningValidator) (s : CdpSt)
     CdpRunningValidator.report_error, StatusWordContainer.replace_ihw, preIhw, ht', Rs.Res.unwrapD_ok]
   by_cases hsane : ihwSane w = true
   · simp only [hsane, Bool.not_true, Bool.false_eq_true, if_false, if_true, List.append_nil]
-    exact ⟨⟨h.running, h.pos, h.rdhv, h.rdh, by simp, h.tdhs, h.tdt, h.ddw0, h.cdw⟩, trivial⟩
+    exact ⟨⟨h.running, h.period, h.sod, h.pos, h.rdhv, h.rdh, by simp, h.tdhs, h.tdt, h.ddw0, h.cdw⟩, trivial⟩
   · simp only [hsane, Bool.not_false, if_true, if_false]
-    refine ⟨⟨h.running, h.pos, h.rdhv, h.rdh, by simp, h.tdhs, h.tdt, h.ddw0, h.cdw⟩, ?_⟩
+    refine ⟨⟨h.running, h.period, h.sod, h.pos, h.rdhv, h.rdh, by simp, h.tdhs, h.tdt, h.ddw0, h.cdw⟩, ?_⟩
     simp [outMsgs_append, outMsgs, reportMsgs, mkErr, h.pos, codeStr, Rs.Str.app, Rs.Str.lit]
 
 /-! ### helpers: what a conditional report adds -/
 theorem abs_out (cfg : CheckCfg) (v : CdpRunningValidator) (s : CdpSt) (c : SrcRdh.RdhCru) (o : List Rs.Report) (h : Abs cfg v s c) :
-    Abs cfg { v with f_out := o } s c := ⟨h.running, h.pos, h.rdhv, h.rdh, h.ihw, h.tdhs, h.tdt, h.ddw0, h.cdw⟩
+    Abs cfg { v with f_out := o } s c := ⟨h.running, h.period, h.sod, h.pos, h.rdhv, h.rdh, h.ihw, h.tdhs, h.tdt, h.ddw0, h.cdw⟩
 
 /-- `if let Err(es) = r { es.into_iter().for_each(|e| self.report_error(e, w)) }`: one message per code of the error, nothing for `Ok` -/
 theorem report_each (v : CdpRunningValidator) (r : Rs.Res Unit) (w : Bytes) :
     (if r.isErr then (v.report_errors r.errStr w).2 else v) =
-      { v with f_out := v.f_out ++ (if r.isErr then [Rs.Report.mk v.f_tracker.current_word_mem_pos r.errStr w true] else []) } := by
+      { v with f_out := v.f_out ++ (if r.isErr then [Rs.Report.mk v.f_tracker.current_word_mem_pos r.errStr w true true] else []) } := by
   cases r <;> simp [CdpRunningValidator.report_errors]
 
 theorem out_each (o : List Rs.Report) (r : Rs.Res Unit) (pos : Nat) (w : Bytes) :
-    outMsgs (o ++ (if r.isErr then [Rs.Report.mk pos r.errStr w true] else [])) =
+    outMsgs (o ++ (if r.isErr then [Rs.Report.mk pos r.errStr w true true] else [])) =
       outMsgs o ++ r.errStr.codes.map (fun k => Msg.error { offset := pos, code := codeStr k, word := some w }) := by
   cases r <;> simp [outMsgs, reportMsgs]
 
 theorem out_single (o : List Rs.Report) (c : Prop) [Decidable c] (pos : Nat) (m : Rs.Str) (w : Bytes) :
-    outMsgs (o ++ (if c then [Rs.Report.mk pos m w false] else [])) =
+    outMsgs (o ++ (if c then [Rs.Report.mk pos m w false true] else [])) =
       outMsgs o ++ (if c then [Msg.error { offset := pos, code := codeStr (m.codes.headD 0), word := some w }] else []) := by
   split <;> simp [outMsgs, reportMsgs]
 
@@ -86,7 +88,7 @@ theorem ite_with_out (v : CdpRunningValidator) (c : Prop) [Decidable c] (l : Lis
 
 theorem check_rdh_at_ddw0_eq (v : CdpRunningValidator) (w : Bytes) :
     (v.check_rdh_at_ddw0 w).2 = { v with f_out := v.f_out ++
-      (if v.f_rdh_validator.check_at_ddw0.isErr then [Rs.Report.mk v.f_tracker.current_word_mem_pos v.f_rdh_validator.check_at_ddw0.errStr w true] else []) } := by
+      (if v.f_rdh_validator.check_at_ddw0.isErr then [Rs.Report.mk v.f_tracker.current_word_mem_pos v.f_rdh_validator.check_at_ddw0.errStr w true true] else []) } := by
   simp only [CdpRunningValidator.check_rdh_at_ddw0, ite_pair_snd, report_each]
 
 /-- `preprocess_ddw0` (with `check_rdh_at_ddw0`) = `preDdw0` -/
@@ -104,8 +106,10 @@ theorem preprocess_ddw0_eq (cfg : CheckCfg) (v : CdpRunningValidator) (s : CdpSt
   simp only [CdpRunningValidator.preprocess_ddw0, check_rdh_at_ddw0_eq, StatusWordContainer.sanity_check_ddw0,
     StatusWordSanityChecker.check_ddw0, hs, CdpRunningValidator.report_error, StatusWordContainer.replace_ddw, preDdw0, ht',
     Rs.Res.unwrapD_ok, hr, ite_with_out]
-  refine ⟨⟨?_, ?_, ?_, h.rdh, ?_, ?_, ?_, ?_, ?_⟩, ?_⟩
+  refine ⟨⟨?_, ?_, ?_, ?_, ?_, h.rdh, ?_, ?_, ?_, ?_, ?_⟩, ?_⟩
   · split <;> simp [hrun]
+  · split <;> simp [h.period]
+  · split <;> simp [h.sod]
   · split <;> simp [hpos, CdpSt.wordPos]
   · split <;> simp [hrv]
   · split <;> simp [h.ihw]
@@ -208,20 +212,260 @@ theorem process_cdw_eq (cfg : CheckCfg) (v : CdpRunningValidator) (s : CdpSt) (c
     cases hc : s.cdw with
     | none =>
       simp only [Option.map_none, Bool.false_eq_true, if_false, List.append_nil]
-      exact ⟨⟨hrun, by simp [h.pos, CdpSt.wordPos], by simp [h.rdhv], h.rdh, by simp [h.ihw], by simp [h.tdhs], by simp [h.tdt],
+      exact ⟨⟨hrun, by simp [h.period], by simp [h.sod], by simp [h.pos, CdpSt.wordPos], by simp [h.rdhv], h.rdh, by simp [h.ihw], by simp [h.tdhs], by simp [h.tdt],
         by simp [h.ddw0], by simp⟩, trivial⟩
     | some prev =>
       obtain ⟨t', ht2, hu', _⟩ := cdw_fields_eq prev
       have hp' : SrcWords.Cdw.from_buf prev = .ok (cdwOf prev) := rfl
       rw [hp'] at ht2; cases ht2
       simp only [Option.map_some, hu, hi, hu']
-      refine ⟨⟨hrun, by simp [h.pos, CdpSt.wordPos], by simp [h.rdhv], h.rdh, by simp [h.ihw], by simp [h.tdhs], by simp [h.tdt],
+      refine ⟨⟨hrun, by simp [h.period], by simp [h.sod], by simp [h.pos, CdpSt.wordPos], by simp [h.rdhv], h.rdh, by simp [h.ihw], by simp [h.tdhs], by simp [h.tdt],
         by simp [h.ddw0], by simp⟩, ?_⟩
       simp only [out_single, h.pos]
       split <;> simp [mkErr, codeStr, Rs.Str.lit]
   · simp only [Bool.not_eq_true] at hR
     simp only [CdpRunningValidator.process_cdw, hrun, hR, Bool.not_false, if_true, List.append_nil]
     exact ⟨h, trivial⟩
+
+/-! ### TDH / TDT / data words, in the configurations without the readout-frame validator (`cfg.stave = false`; the translation of
+    these handlers is specialised to `readout_frame_validator = None`, see `none_fields` in rsspec/linkval.json) -/
+/-- the state spec re-translates the TDH sanity check (same Rust struct as the state-dependent checks): it is the one of `SrcWords` -/
+theorem tdh_sanity_same (t : SrcWords.Tdh) : SrcState.TdhValidator.sanity_check t = SrcWords.TdhValidator.sanity_check t := rfl
+
+theorem preprocess_tdh_eq (cfg : CheckCfg) (v : CdpRunningValidator) (s : CdpSt) (c : SrcRdh.RdhCru) (w : Bytes)
+    (h : Abs cfg v s c) (hst : cfg.stave = false) :
+    Abs cfg (v.preprocess_tdh w).2 (preTdh cfg s w).1 c ∧
+    outMsgs (v.preprocess_tdh w).2.f_out = outMsgs v.f_out ++ (preTdh cfg s w).2 := by
+  obtain ⟨t, ht, hs⟩ := tdh_sane_eq w
+  rw [tdhOf_from_buf] at ht; cases ht
+  have hrep := tdh_replace_eq s w
+  simp only [CdpRunningValidator.preprocess_tdh, StatusWordContainer.sanity_check_tdh, StatusWordSanityChecker.check_tdh, tdh_sanity_same, hs,
+    CdpRunningValidator.report_error, tdhOf_from_buf, Rs.Res.unwrapD_ok, ite_with_out, preTdh, hst, Bool.false_and,
+    Bool.false_eq_true, if_false, (container_replace_tdh _ _).1]
+  refine ⟨⟨h.running, h.period, by simp [h.sod, replaceTdh], by simp [h.pos, CdpSt.wordPos, replaceTdh], h.rdhv, by simp [h.rdh, replaceTdh],
+    by simp [h.ihw, replaceTdh], ?_, by simp [h.tdt, replaceTdh], by simp [h.ddw0, replaceTdh], by simp [h.cdw, replaceTdh]⟩, ?_⟩
+  · simp only [h.tdhs, hrep]
+  · rw [out_single, h.pos]
+    by_cases hsane : tdhSane w = true <;> simp [hsane, mkErr, codeStr, Rs.Str.app, Rs.Str.lit]
+
+theorem preprocess_tdt_eq (cfg : CheckCfg) (v : CdpRunningValidator) (s : CdpSt) (c : SrcRdh.RdhCru) (w : Bytes)
+    (h : Abs cfg v s c) (hst : cfg.stave = false) :
+    ∃ s' ms, preTdt cfg s w = .ok (s', ms) ∧ Abs cfg (v.preprocess_tdt w).2 s' c ∧
+      outMsgs (v.preprocess_tdt w).2.f_out = outMsgs v.f_out ++ ms := by
+  obtain ⟨t, ht, hs⟩ := tdt_sane_eq w
+  have ht' : SrcWords.Tdt.from_buf w = .ok (tdtOf w) := rfl
+  rw [ht'] at ht; cases ht
+  have hpre : preTdt cfg s w = .ok ({ s with tdt := some w }, if tdtSane w then [] else [mkErr s "E50" w]) := by
+    simp only [preTdt, hst, Bool.false_and, Bool.false_eq_true, if_false]
+  refine ⟨_, _, hpre, ?_, ?_⟩
+  · simp only [CdpRunningValidator.preprocess_tdt, StatusWordContainer.sanity_check_tdt, StatusWordSanityChecker.check_tdt, hs,
+      CdpRunningValidator.report_error, ht', Rs.Res.unwrapD_ok, ite_with_out, StatusWordContainer.replace_tdt]
+    exact ⟨h.running, h.period, h.sod, by simp [h.pos, CdpSt.wordPos], h.rdhv, h.rdh, by simp [h.ihw], by simp [h.tdhs], by simp,
+      by simp [h.ddw0], by simp [h.cdw]⟩
+  · simp only [CdpRunningValidator.preprocess_tdt, StatusWordContainer.sanity_check_tdt, StatusWordSanityChecker.check_tdt, hs,
+      CdpRunningValidator.report_error, ht', Rs.Res.unwrapD_ok, ite_with_out, StatusWordContainer.replace_tdt]
+    rw [out_single, h.pos]
+    by_cases hsane : tdtSane w = true <;> simp [hsane, mkErr, codeStr, Rs.Str.app, Rs.Str.lit]
+
+/-- `check_tdh_trigger_interval` = `tdhTriggerInterval` ([E45], sent without a word dump) -/
+theorem check_tdh_trigger_interval_eq (cfg : CheckCfg) (v : CdpRunningValidator) (s : CdpSt) (c : SrcRdh.RdhCru) (w : Bytes)
+    (h : Abs cfg v s c) (hcur : s.tdh.isSome = true ∨ s.prevInternalTdh = none) :
+    Abs cfg (v.check_tdh_trigger_interval w).2 s c ∧
+    outMsgs (v.check_tdh_trigger_interval w).2.f_out = outMsgs v.f_out ++ tdhTriggerInterval cfg s := by
+  have hper := h.period
+  have e1 : StatusWordContainer.tdh_previous_with_internal_trg v.f_status_words = s.prevInternalTdh.map tdhOf := by
+    simp [StatusWordContainer.tdh_previous_with_internal_trg, TdhBuffer.previous_tdh_with_internal_trg, h.tdhs, bufOf]
+  have e2 : StatusWordContainer.tdh v.f_status_words = s.tdh.map tdhOf := by
+    simp [StatusWordContainer.tdh, TdhBuffer.current_tdh, h.tdhs, bufOf]
+  unfold CdpRunningValidator.check_tdh_trigger_interval tdhTriggerInterval
+  rw [hper, e1, e2]
+  cases hp : cfg.triggerPeriod with
+  | none => exact ⟨by simpa using h, by simp⟩
+  | some p =>
+    cases hpi : s.prevInternalTdh with
+    | none => exact ⟨by simpa using h, by simp⟩
+    | some prev =>
+      cases hc : s.tdh with
+      | none => rw [hc, hpi] at hcur; simp at hcur
+      | some cur =>
+        obtain ⟨hie, hcode⟩ := trigger_interval_eq cur prev p
+        have hint := (tdhOf_fields cur).2.1
+        simp only [Option.map_some, Option.isSome_some, if_true, Rs.unwrapD, Option.getD_some, hint, hie,
+          CdpRunningValidator.report_noword]
+        by_cases hI : tdhInternal cur = 1
+        · by_cases hD : (detectedPeriod (tdhBc cur) (tdhBc prev) != p) = true
+          · have hcodes := hcode (by rw [hie]; exact hD)
+            simp only [hI, beq_self_eq_true, if_true, hD, Bool.and_true]
+            refine ⟨abs_out cfg v s c _ h, ?_⟩
+            simp [outMsgs_append, outMsgs, reportMsgs, hcodes, mkErrNoWord, codeStr, h.pos]
+          · simp only [hI, beq_self_eq_true, if_true, hD, Bool.and_false, Bool.false_eq_true, if_false, List.append_nil]
+            exact ⟨h, trivial⟩
+        · have : (tdhInternal cur == 1) = false := by simpa using hI
+          simp only [this, Bool.false_eq_true, if_false, Bool.false_and, List.append_nil]
+          exact ⟨h, trivial⟩
+
+/-! ### data words -/
+theorem ib_check_isErr (w : Bytes) (lanes : Nat) :
+    (SrcWords.IbDataWordValidator.check w lanes).isErr = !laneActive (ibLane (wordId w)) lanes := by
+  simp only [SrcWords.IbDataWordValidator.check, wordId, is_lane_active_eq, ← ib_lane_eq, SrcWords.ib_data_word_id_to_lane]
+  split <;> simp_all
+
+theorem ihw_lanes (v : CdpRunningValidator) (s : CdpSt) (ihw : Bytes) (hi : v.f_status_words.f_ihw = s.ihw.map ihwOf) (hs : s.ihw = some ihw) :
+    SrcWords.Ihw.active_lanes (Rs.unwrapD (StatusWordContainer.ihw v.f_status_words)) = ihwActiveLanes ihw := by
+  obtain ⟨t, ht, hl⟩ := ihw_active_lanes_eq ihw
+  have : SrcWords.Ihw.from_buf ihw = .ok (ihwOf ihw) := rfl
+  rw [this] at ht; cases ht
+  simp [StatusWordContainer.ihw, hi, hs, Rs.unwrapD, hl]
+
+theorem process_ib_eq (cfg : CheckCfg) (v : CdpRunningValidator) (s : CdpSt) (c : SrcRdh.RdhCru) (w ihw : Bytes)
+    (h : Abs cfg v s c) (hi : cfg.running = true → s.ihw = some ihw) :
+    Abs cfg (v.process_ib_data_word w).2 s c ∧
+    outMsgs (v.process_ib_data_word w).2.f_out = outMsgs v.f_out ++
+      (if cfg.running then (if laneActive (ibLane (wordId w)) (ihwActiveLanes ihw) then [] else [mkErr s "E72" w]) else []) := by
+  by_cases hR : cfg.running = true
+  · have hv : v.f_running_checks_enabled = true := by rw [h.running, hR]
+    unfold CdpRunningValidator.process_ib_data_word
+    rw [if_neg (show ¬ ((!v.f_running_checks_enabled) = true) by rw [hv]; decide)]
+    simp only [ihw_lanes v s ihw h.ihw (hi hR), ib_check_isErr, CdpRunningValidator.report_error, ite_with_out, hR, if_true]
+    refine ⟨abs_out cfg v s c _ h, ?_⟩
+    rw [out_single, h.pos]
+    have hc := ib_check_eq w (ihwActiveLanes ihw)
+    by_cases ha : laneActive (ibLane (wordId w)) (ihwActiveLanes ihw) = true <;> simp [ha, hc, mkErr, codeStr]
+  · simp only [Bool.not_eq_true] at hR
+    have hv : v.f_running_checks_enabled = false := by rw [h.running, hR]
+    unfold CdpRunningValidator.process_ib_data_word
+    rw [if_pos (show ((!v.f_running_checks_enabled) = true) by rw [hv]; decide)]
+    simp only [hR, Bool.false_eq_true, if_false, List.append_nil]
+    exact ⟨h, trivial⟩
+
+theorem process_ob_eq (cfg : CheckCfg) (v : CdpRunningValidator) (s : CdpSt) (c : SrcRdh.RdhCru) (w ihw : Bytes)
+    (h : Abs cfg v s c) (hi : cfg.running = true → s.ihw = some ihw) :
+    Abs cfg (v.process_ob_data_word w).2 s c ∧
+    outMsgs (v.process_ob_data_word w).2.f_out = outMsgs v.f_out ++
+      (if cfg.running then
+        (if laneActive (obLane (wordId w)) (ihwActiveLanes ihw) then [] else [mkErr s "E71" w]) ++
+        (if obConnectorInput (wordId w) > 6 then [mkErr s "E73" w] else []) else []) := by
+  by_cases hR : cfg.running = true
+  · have hv : v.f_running_checks_enabled = true := by rw [h.running, hR]
+    unfold CdpRunningValidator.process_ob_data_word
+    rw [if_neg (show ¬ ((!v.f_running_checks_enabled) = true) by rw [hv]; decide)]
+    simp only [ihw_lanes v s ihw h.ihw (hi hR), report_each, hR, if_true]
+    refine ⟨abs_out cfg v s c _ h, ?_⟩
+    rw [out_each, h.pos, ob_check_eq]
+    by_cases ha : laneActive (obLane (wordId w)) (ihwActiveLanes ihw) = true <;> by_cases hb : obConnectorInput (wordId w) > 6 <;>
+      simp [ha, hb, mkErr, codeStr]
+  · simp only [Bool.not_eq_true] at hR
+    have hv : v.f_running_checks_enabled = false := by rw [h.running, hR]
+    unfold CdpRunningValidator.process_ob_data_word
+    rw [if_pos (show ((!v.f_running_checks_enabled) = true) by rw [hv]; decide)]
+    simp only [hR, Bool.false_eq_true, if_false, List.append_nil]
+    exact ⟨h, trivial⟩
+
+/-- `set_data_seen` only clears the start-of-data flag -/
+theorem abs_data_seen (cfg : CheckCfg) (v : CdpRunningValidator) (s : CdpSt) (c : SrcRdh.RdhCru) (h : Abs cfg v s c) :
+    Abs cfg { v with f_tracker := (CdpTracker.set_data_seen v.f_tracker).2 } { s with startOfData := false } c :=
+  ⟨h.running, h.period, rfl, h.pos, h.rdhv, h.rdh, h.ihw, h.tdhs, h.tdt, h.ddw0, h.cdw⟩
+
+/-- the part of `preprocess_data_word` before `set_data_seen` -/
+def dataCore (v : CdpRunningValidator) (w : Bytes) : CdpRunningValidator :=
+  if (CdpTracker.start_of_data v.f_tracker && (bAt w 9 == SrcWords.Cdw.ID)) then (v.process_cdw w).2
+  else
+    let v1 := if (SrcWords.DataWordSanityChecker.check_any w).isErr
+      then (v.report_error ((Rs.Str.lit true [70]).app (SrcWords.DataWordSanityChecker.check_any w).errStr) w).2 else v
+    if (bAt w 9 >>> 5 == 1) then (v1.process_ib_data_word w).2
+    else if (bAt w 9 >>> 5 == 2) then (v1.process_ob_data_word w).2 else v1
+
+theorem data_unfold (v : CdpRunningValidator) (w : Bytes) :
+    (v.preprocess_data_word w).2 = { dataCore v w with f_tracker := (CdpTracker.set_data_seen (dataCore v w).f_tracker).2 } := rfl
+
+theorem dataCore_eq (cfg : CheckCfg) (v : CdpRunningValidator) (s : CdpSt) (c : SrcRdh.RdhCru) (w : Bytes)
+    (h : Abs cfg v s c) (hst : cfg.stave = false) (s' : CdpSt) (ms : List Msg) (hok : preData cfg s w = .ok (s', ms)) :
+    ∃ sX, s' = { sX with startOfData := false } ∧ Abs cfg (dataCore v w) sX c ∧
+      outMsgs (dataCore v w).f_out = outMsgs v.f_out ++ ms := by
+  have hsod : CdpTracker.start_of_data v.f_tracker = s.startOfData := h.sod
+  have hid : (bAt w 9 == SrcWords.Cdw.ID) = (wordId w == ID_CDW) := rfl
+  unfold dataCore
+  rw [hsod, hid]
+  by_cases hC : (s.startOfData && wordId w == ID_CDW) = true
+  · rw [if_pos hC]
+    rw [preData_cdw cfg s w hC] at hok
+    cases hok
+    exact ⟨_, rfl, (process_cdw_eq cfg v s c w h).1, (process_cdw_eq cfg v s c w h).2⟩
+  · rw [if_neg hC]
+    -- the sanity report
+    have h1 : Abs cfg (if (SrcWords.DataWordSanityChecker.check_any w).isErr
+        then (v.report_error ((Rs.Str.lit true [70]).app (SrcWords.DataWordSanityChecker.check_any w).errStr) w).2 else v) s c ∧
+        outMsgs (if (SrcWords.DataWordSanityChecker.check_any w).isErr
+          then (v.report_error ((Rs.Str.lit true [70]).app (SrcWords.DataWordSanityChecker.check_any w).errStr) w).2 else v).f_out =
+          outMsgs v.f_out ++ (if isValidDataId (wordId w) then [] else [mkErr s "E70" w]) := by
+      simp only [CdpRunningValidator.report_error, ite_with_out, check_any_eq]
+      refine ⟨abs_out cfg v s c _ h, ?_⟩
+      rw [out_single, h.pos]
+      by_cases hv : isValidDataId (wordId w) = true <;> simp [hv, mkErr, codeStr, Rs.Str.app, Rs.Str.lit]
+    generalize (if (SrcWords.DataWordSanityChecker.check_any w).isErr
+        then (v.report_error ((Rs.Str.lit true [70]).app (SrcWords.DataWordSanityChecker.check_any w).errStr) w).2 else v) = v1 at h1 ⊢
+    obtain ⟨ha1, ho1⟩ := h1
+    have e5 : bAt w 9 >>> 5 = wordId w / 32 := by simp [wordId, Nat.shiftRight_eq_div_pow]
+    simp only [e5]
+    unfold preData at hok
+    simp only [hC, Bool.false_eq_true, if_false, hst] at hok
+    by_cases hR : cfg.running = true
+    · by_cases k1 : wordId w / 32 = 1
+      · simp only [hR, k1, Bool.not_true, bne_self_eq_false, Bool.false_and, Bool.or_false, Bool.false_eq_true, if_false,
+          beq_self_eq_true, if_true] at hok ⊢
+        cases hi : s.ihw with
+        | none => rw [hi] at hok; cases hok
+        | some ihw =>
+          rw [hi] at hok
+          simp only [Bool.not_false, if_true, Except.ok.injEq, Prod.mk.injEq] at hok
+          obtain ⟨rfl, rfl⟩ := hok
+          obtain ⟨a, o⟩ := process_ib_eq cfg v1 s c w ihw ha1 (fun _ => hi)
+          exact ⟨s, by simp [hi], a, by rw [o, ho1, hR]; simp [List.append_assoc]⟩
+      · by_cases k2 : wordId w / 32 = 2
+        · have k1' : (wordId w / 32 == 1) = false := by simp [k2]
+          have t21 : ((2 : Nat) == 1) = false := rfl
+          simp only [hR, k2, k1', t21, Bool.not_true, bne_self_eq_false, Bool.and_false, Bool.or_false, Bool.false_eq_true, if_false,
+            beq_self_eq_true, if_true] at hok ⊢
+          cases hi : s.ihw with
+          | none => rw [hi] at hok; cases hok
+          | some ihw =>
+            rw [hi] at hok
+            simp only [Bool.not_false, if_true, Except.ok.injEq, Prod.mk.injEq] at hok
+            obtain ⟨rfl, rfl⟩ := hok
+            obtain ⟨a, o⟩ := process_ob_eq cfg v1 s c w ihw ha1 (fun _ => hi)
+            exact ⟨s, by simp [hi], a, by rw [o, ho1, hR]; simp [List.append_assoc]⟩
+        · have k1' : (wordId w / 32 == 1) = false := by simpa using k1
+          have k2' : (wordId w / 32 == 2) = false := by simpa using k2
+          have n1 : (wordId w / 32 != 1) = true := by simpa using k1
+          have n2 : (wordId w / 32 != 2) = true := by simpa using k2
+          simp only [k1', k2', n1, n2, Bool.and_self, Bool.or_true, if_true, Bool.false_eq_true, if_false,
+            Except.ok.injEq, Prod.mk.injEq] at hok ⊢
+          obtain ⟨rfl, rfl⟩ := hok
+          exact ⟨s, rfl, ha1, ho1⟩
+    · simp only [Bool.not_eq_true] at hR
+      simp only [hR, Bool.not_false, Bool.true_or, if_true, Except.ok.injEq, Prod.mk.injEq] at hok
+      obtain ⟨rfl, rfl⟩ := hok
+      by_cases k1 : wordId w / 32 = 1
+      · simp only [k1, beq_self_eq_true, if_true]
+        obtain ⟨a, o⟩ := process_ib_eq cfg v1 s c w [] ha1 (fun hh => by rw [hR] at hh; cases hh)
+        exact ⟨s, rfl, a, by rw [o, ho1, hR]; simp⟩
+      · have k1' : (wordId w / 32 == 1) = false := by simpa using k1
+        simp only [k1', Bool.false_eq_true, if_false]
+        by_cases k2 : wordId w / 32 = 2
+        · simp only [k2, beq_self_eq_true, if_true]
+          obtain ⟨a, o⟩ := process_ob_eq cfg v1 s c w [] ha1 (fun hh => by rw [hR] at hh; cases hh)
+          exact ⟨s, rfl, a, by rw [o, ho1, hR]; simp⟩
+        · have k2' : (wordId w / 32 == 2) = false := by simpa using k2
+          simp only [k2', Bool.false_eq_true, if_false]
+          exact ⟨s, rfl, ha1, ho1⟩
+
+/-- `preprocess_data_word` = `preData` (data words and calibration words; configurations without the readout-frame validator) -/
+theorem preprocess_data_word_eq (cfg : CheckCfg) (v : CdpRunningValidator) (s : CdpSt) (c : SrcRdh.RdhCru) (w : Bytes)
+    (h : Abs cfg v s c) (hst : cfg.stave = false) (s' : CdpSt) (ms : List Msg) (hok : preData cfg s w = .ok (s', ms)) :
+    Abs cfg (v.preprocess_data_word w).2 s' c ∧ outMsgs (v.preprocess_data_word w).2.f_out = outMsgs v.f_out ++ ms := by
+  obtain ⟨sX, rfl, ha, ho⟩ := dataCore_eq cfg v s c w h hst s' ms hok
+  rw [data_unfold]
+  exact ⟨abs_data_seen cfg _ sX c ha, ho⟩
 
 end SrcTie
 end FastPasta
